@@ -482,6 +482,14 @@ func main() {
 			return
 		}
 	}
+	if os.Getenv("C18_SR_ONLY") != "" {
+		K = p2p.VerifC18GetConsts()
+		c, f, o := runSessionReplaceCase(3, 0.5)
+		fmt.Println("SR:", c, f, o)
+		c, f, o = runBulkUnderHeartbeats(4, 3)
+		fmt.Println("BULK:", c, f, o)
+		return
+	}
 	t0 := time.Now()
 	r := mc.Start("C18", "model_checking", 85*time.Second, 27*time.Minute)
 	budget := 85 * time.Second
